@@ -1,4 +1,5 @@
 import CoxeterVerif.Lemmas.FormFactorIntegral
+import CoxeterVerif.Lemmas.FormFactorRect
 /-!
   # C12 — the form factor amplitude is the Fourier transform of the shape
 
@@ -134,6 +135,19 @@ theorem polygon_ff_eq_spec_partial (v0 : V3 ℝ) (rest : List (V3 ℝ)) (n qv : 
 
 example : polygonFF exSquare exZ exQ 2 = Spec.polygonFT exSquare exZ exQ 2 :=
   polygon_ff_eq_spec_partial _ _ _ _ _ exSquare_planar exZ_unit (Or.inr exQ_outside)
+
+/-- **rectangle = product of two 1-D transforms.** For every rectangle `[0,a]×[0,b]` in the plane `z = 0`
+and every `q` with `q_x, q_y ≠ 0` outside the window, the model equals the Fubini closed form
+`ρ ∫₀ᵃ e^{-i q_x x} dx · ∫₀ᵇ e^{-i q_y y} dy` — an end-to-end check of the Stokes reduction that does not
+rely on Green's theorem. -/
+theorem polygon_ff_rectangle_closed_form (a b x y z rho : ℝ) (ha : 0 < a) (hb : 0 < b) (hx : x ≠ 0) (hy : y ≠ 0)
+    (hwin : isCloseZero (x * x + y * y) = false) :
+    polygonFF (rect a b) zhat ⟨x, y, z⟩ rho = Cx.smul rho (Cx.mul (Spec.segFT 0 a x) (Spec.segFT 0 b y)) :=
+  rect_ff_eq_product a b x y z rho ha hb hx hy hwin
+
+example : polygonFF (rect 2 3) zhat ⟨1, 2, 3⟩ 5 = Cx.smul 5 (Cx.mul (Spec.segFT 0 2 1) (Spec.segFT 0 3 2)) :=
+  polygon_ff_rectangle_closed_form 2 3 1 2 3 5 (by norm_num) (by norm_num) (by norm_num) (by norm_num)
+    (by rw [Bool.eq_false_iff, Ne, isCloseZero_iff]; norm_num)
 
 /-! ### Polygon: laws for every vertex list and every wave vector -/
 
